@@ -373,3 +373,29 @@ package main
 //@   ensures [C07] p2p_default_invite: t.cat == types.TopicCatP2P && old(pkt.Set.Sub.Mode) == "" && (target in t.perUser) && t.perUser[target].modeGiven != old(t.perUser[target].modeGiven) ==> (t.perUser[target].modeGiven & ^types.ModeCP2P) == 0 && (t.perUser[target].modeGiven & types.ModeApprove) != 0
 //@   ensures [C07] no_channel_promotion: asChan ==> err != nil
 //@   assert at call store.SubsPersistenceInterface.Create [C07] limit: t.cat == types.TopicCatGrp ==> len(t.perUser) < globals.maxSubscriberCount
+
+// {del sub}: an administrator removes somebody else's subscription - never the owner's.
+//@ func (t *Topic) replyDelSub(sess *Session, asUid types.Uid, msg *ClientComMessage) (err error)
+//@   requires t != nil && sess != nil && msg != nil && msg.Del != nil
+//@   modifies inferred
+//@   ensures [C06] owner_field: t.owner == old(t.owner)
+//@   ensures [C06] owner_stays: forall u types.Uid :: old((u in t.perUser) && hasO(effMode(t, u))) ==> (u in t.perUser) && t.perUser[u].modeWant == old(t.perUser[u].modeWant) && t.perUser[u].modeGiven == old(t.perUser[u].modeGiven)
+//@   ensures [C07] needs_admin: !old((asUid in t.perUser) && isAdminOf(t, asUid)) ==> err != nil && (forall u types.Uid :: (u in t.perUser) == old(u in t.perUser))
+//@   ensures [C07] only_target: forall u types.Uid :: u != types.ParseUserId(old(msg.Del.User)) ==> (u in t.perUser) == old(u in t.perUser)
+//@   ensures [C07] modes_kept: forall u types.Uid :: (u in t.perUser) && old(u in t.perUser) ==> t.perUser[u].modeWant == old(t.perUser[u].modeWant) && t.perUser[u].modeGiven == old(t.perUser[u].modeGiven)
+
+// {leave unsub}: the owner cannot unsubscribe; nobody else's subscription is touched.
+//@ func (t *Topic) replyLeaveUnsub(sess *Session, msg *ClientComMessage, asUid types.Uid) (err error)
+//@   requires t != nil && sess != nil && msg != nil
+//@   modifies inferred
+//@   ensures [C06] owner_field: t.owner == old(t.owner)
+//@   ensures [C06] owner_cannot_leave: old(t.owner) == asUid ==> err != nil && (forall u types.Uid :: (u in t.perUser) == old(u in t.perUser))
+//@   ensures [C07] only_self: forall u types.Uid :: u != asUid ==> (u in t.perUser) == old(u in t.perUser)
+//@   ensures [C07] modes_kept: forall u types.Uid :: (u in t.perUser) && old(u in t.perUser) ==> t.perUser[u].modeWant == old(t.perUser[u].modeWant) && t.perUser[u].modeGiven == old(t.perUser[u].modeGiven)
+
+// Loading a group topic: the owner is a subscriber whose effective (given AND want) mode has O.
+//@ func (t *Topic) loadSubscribers() (err error)
+//@   requires t != nil
+//@   modifies inferred
+//@   loop 1
+//@     iterates [C06] owner_is_effective: t.owner != prev(t.owner) ==> (t.owner in t.perUser) && hasO(effMode(t, t.owner))
